@@ -247,6 +247,10 @@ func genSubjSched(tier string, seed int64, only string) []*Case {
 		id++
 		cases = append(cases, newCase(id, "kind", "subjsched", "scen", "lost", "op", "unicast", "p", p))
 	}
+	for _, p := range []string{"-1", "2"} {
+		id++
+		cases = append(cases, newCase(id, "kind", "subjsched", "scen", "midunsub", "op", "unicast", "p", p))
+	}
 	return cases
 }
 
@@ -280,6 +284,8 @@ func runSubjSched(c *Case) string {
 		return schedUUAsync(c)
 	case "lost":
 		return schedLost(c)
+	case "midunsub":
+		return schedMidUnsub(c)
 	}
 	return "res " + c.id + " unsupported"
 }
@@ -481,6 +487,57 @@ func schedLost(c *Case) string {
 	}
 	st.mu.Unlock()
 	st.do(subjOp{'S', 1}, 5, func() { cl.apply(subjOp{'S', 1}, 5) })
+	return fmt.Sprintf("res %s hist=%s %s drops=%s", c.id, histString(st.hist), cl.traces(), joinOrDash(drops.drops))
+}
+
+// unicast: a Subscribe that arrives while the Unsubscribe of the current subscriber is IN FLIGHT. Subscriber 0 is a
+// Subscriber that carries a teardown of its own (registered before it subscribes, so it runs before the one the subject
+// installs): that teardown parks the unsubscribing goroutine after the subscriber has been marked closed and before the
+// subject has forgotten it. Subscriber 1 subscribes in that window; then the Unsubscribe finishes, two values are
+// published and subscriber 2 subscribes. Either order of the two overlapping calls is fine — rejected newcomer, or
+// admitted newcomer that then receives the two values — the recorded history is judged by the linearizability search.
+func schedMidUnsub(c *Case) string {
+	subject, ok := newSubjectOf("unicast", parseInts(c.get("p", "-1")))
+	if !ok {
+		return "res " + c.id + " unsupported"
+	}
+	drops := &Recorder{}
+	setRecorder(drops)
+	defer setRecorder(nil)
+	cl := newSubjClient(subject, subjectIDs)
+	st := &stamper{}
+	mark := func(k int) contextT { return withMark(withMark(ctxFromMarks(nil), 7), k) }
+	entered, gate := make(chan struct{}), make(chan struct{})
+	first := ro.NewSubscriber[int](observer[int](cl.recs[0]))
+	first.Add(func() {
+		close(entered)
+		select {
+		case <-gate:
+		case <-time.After(3 * time.Second):
+		}
+	})
+	st.do(subjOp{'S', 0}, 1, func() { cl.subs[0] = subject.SubscribeWithContext(mark(1), first) })
+	unsubbed := make(chan struct{})
+	go func() {
+		st.do(subjOp{'U', 0}, 2, func() { first.Unsubscribe() })
+		close(unsubbed)
+	}()
+	select {
+	case <-entered:
+	case <-time.After(5 * time.Second):
+		close(gate)
+		return "res " + c.id + " harness-timeout"
+	}
+	st.do(subjOp{'S', 1}, 3, func() { cl.apply(subjOp{'S', 1}, 3) })
+	close(gate)
+	select {
+	case <-unsubbed:
+	case <-time.After(5 * time.Second):
+		return "res " + c.id + " harness-timeout"
+	}
+	st.do(subjOp{'N', 1}, 4, func() { cl.apply(subjOp{'N', 1}, 4) })
+	st.do(subjOp{'N', 2}, 5, func() { cl.apply(subjOp{'N', 2}, 5) })
+	st.do(subjOp{'S', 2}, 6, func() { cl.apply(subjOp{'S', 2}, 6) })
 	return fmt.Sprintf("res %s hist=%s %s drops=%s", c.id, histString(st.hist), cl.traces(), joinOrDash(drops.drops))
 }
 
